@@ -43,6 +43,8 @@ type Sched struct {
 	abort     bool
 	finished  chan struct{}
 	MaxPoints int
+	wg        sync.WaitGroup
+	Spawned   int // goroutines started by the code under test through Go (rewritten `go` statements)
 }
 
 type abortSentinel struct{}
@@ -70,37 +72,66 @@ func Run(choose Chooser, bodies ...func()) *Sched {
 	}
 	active.Store(s)
 	mu.Unlock()
-	var wg sync.WaitGroup
 	for i, b := range bodies {
-		wg.Add(1)
-		go func(t *thread, body func()) {
-			defer wg.Done()
-			<-t.wake
-			defer func() {
-				if r := recover(); r != nil {
-					if _, ok := r.(abortSentinel); !ok {
-						t.panicVal = r
-					}
-				}
-				t.done = true
-				s.switchFrom(-1, "exit")
-			}()
-			if s.abort {
-				panic(abortSentinel{})
-			}
-			body()
-		}(s.threads[i], b)
+		s.start(s.threads[i], b)
 	}
 	// initial decision
 	s.switchFrom(-1, "start")
 	<-s.finished
-	wg.Wait()
+	s.wg.Wait()
 	active.Store(nil)
 	return s
 }
 
+// start launches the goroutine of thread t; it runs body when first chosen.
+func (s *Sched) start(t *thread, body func()) {
+	s.wg.Add(1)
+	go func() {
+		defer s.wg.Done()
+		<-t.wake
+		defer func() {
+			if r := recover(); r != nil {
+				if _, ok := r.(abortSentinel); !ok {
+					t.panicVal = r
+				}
+			}
+			t.done = true
+			s.switchFrom(-1, "exit")
+		}()
+		if s.abort {
+			panic(abortSentinel{})
+		}
+		body()
+	}()
+}
+
+// Go is what a `go f()` statement of the code under test is rewritten to. With
+// no scheduler active it is a plain goroutine; under the scheduler the new
+// goroutine becomes a controlled thread (enabled at once) and the spawn is a
+// scheduling point.
+func Go(f func()) {
+	s := Cur()
+	if s == nil {
+		go f()
+		return
+	}
+	t := &thread{id: len(s.threads), wake: make(chan struct{}, 1)}
+	s.threads = append(s.threads, t)
+	s.Spawned++
+	s.start(t, f)
+	s.Yield("go")
+}
+
+// NumThreads returns how many threads (initial + spawned) the execution had.
+func (s *Sched) NumThreads() int { return len(s.threads) }
+
 // PanicOf returns the panic value of thread i (nil if none).
-func (s *Sched) PanicOf(i int) any { return s.threads[i].panicVal }
+func (s *Sched) PanicOf(i int) any {
+	if i < 0 || i >= len(s.threads) {
+		return nil
+	}
+	return s.threads[i].panicVal
+}
 
 func (s *Sched) enabled(running int) (list []int, runningEnabled bool) {
 	if running >= 0 {
